@@ -85,7 +85,7 @@ func ruleC19_1(c *Ctx) {
 			}
 			isID := func(v ssa.Value) bool {
 				if u, ok := v.(*ssa.UnOp); ok {
-					if fa, ok := u.X.(*ssa.FieldAddr); ok && isPtrToNamed(fa.X.Type(), c.A.RefT) && fieldName(fa.X.Type(), fa.Field) == "ResponseID" {
+					if fa, ok := u.X.(*ssa.FieldAddr); ok && c.An.IsRefIDField(fa) {
 						return true
 					}
 				}
